@@ -1,13 +1,18 @@
-// GENERATED by copying func sacramento from /repo/models/rr/sacramento.go (see rr.go): the
-// arithmetic is unchanged; only the array accessors are replaced by slices and three
-// event detectors are added (they record the first time step at which a quantity leaves
-// the range that the guards of the original Fortran code enforce).  The SACTRACE command
-// reports the events together with the outputs, and the check uses them only if those
-// outputs are bit-identical to what sim.Catalog["Sacramento"] produced on the same case.
+// GENERATED on every run of tools/c10.py by rrlib.gen_sactrace() from the CURRENT
+// /repo/models/rr/sacramento.go: func sacramento is copied with its arithmetic unchanged; only the
+// array accessors are replaced by slices and three event detectors are added (first time step at
+// which a quantity leaves the range that the guards of the original Fortran code enforce:
+// ratio < -1 (the Fortran clamps ratio at 0; below -1 the update of adimc is expanding),
+// adimc > uztwm+lztwm, fracp > 1).  SACTRACE reports the events together with the
+// outputs; the check uses them only to classify a failure that the C10 oracle has already found,
+// and only if those outputs are bit-identical to what sim.Catalog["Sacramento"] produced.
 package main
 
 import "math"
 
+var _ = math.Min
+
+const sacTraceAvailable = true
 const sacPdn20 = 5.08
 const sacPdnor = 25.4
 const sacNunit = 5
@@ -235,7 +240,7 @@ func sacTrace(rainfall, pet []float64,
 			//       Drainage and percolation loop
 			for inc := 1; inc <= ninc; inc++ {
 				ratio := (additionalImperviousStore - uprTensionWater) / lztwm
-				if ratio < 0 && ev.ratioNeg < 0 {
+				if ratio < -1 && ev.ratioNeg < 0 {
 					ev.ratioNeg = timestep
 				}
 				addro := pinc * ratio * ratio
